@@ -122,9 +122,12 @@ TraceBlock(e, k) ==
 \*   the specification accepts it (a control) and zrnt accepts it => post = Apply(st, blk) and root_ok.
 \*   (a control that zrnt rejects is not judged here: its declared state root cannot be confirmed, and
 \*   completeness on valid blocks is C01's subject)
+\*   An event may carry its own base state `pre` (a copy of the live state whose registry the harness edited
+\*   to put a validator exactly at a boundary); it is then judged on that state.
 TraceNeg(e, k) ==
     /\ e.ev = "Neg"
-    /\ LET r == StateTransition(st, e.blk, e.oracle)
+    /\ LET base == IF "pre" \in DOMAIN e THEN e.pre ELSE st
+           r == StateTransition(base, e.blk, e.oracle)
            ok == ~IsBad(r)
        IN IF "panic" \in DOMAIN e
             THEN PrintT(<<"MISMATCH", k, "Panic">>) /\ PrintT(<<"DIFF", k, e.variant, e.panic>>)
